@@ -2,6 +2,9 @@ package checks
 
 import (
 	"fmt"
+	"os"
+	"regexp"
+	"strconv"
 	"sort"
 	"strings"
 	"sync"
@@ -15,24 +18,42 @@ import (
 
 const cssPkg = "github.com/microcosm-cc/bluemonday/css"
 
-// hostile(v): the value contains a fragment C18 forbids. A url(...) is only
-// acceptable as a plain http/https reference, so "url(" must be followed by
-// an optional quote and http.
+// hostileClasses(v): one formula per class of fragment C18 forbids. A url()
+// is only acceptable as a plain http/https reference; javascript: and data:
+// count when they start a reference (not when they continue the character run
+// of a plain http(s) URL such as url(http:javascript:)).
+func hostileClasses(v *smt.Term) map[string]*smt.Term {
+	m := map[string]*smt.Term{}
+	for _, f := range []string{"<", ">", "\\", "@", "expression("} {
+		m["contains "+f] = smt.Contains(v, smt.StrC(f))
+	}
+	urlChar := `[a-z0-9./_:\\]`
+	m["javascript:/data: reference"] = smt.Translate(`(^|[^a-z0-9./_:\\])(javascript|data):`).Match(v)
+	_ = urlChar
+	plain := smt.ReConcat(smt.ReUnion(smt.ReLit("http:"), smt.ReLit("https:")), smt.SigmaStar)
+	bad := smt.ReConcat(smt.SigmaStar, smt.ReLit("url("), smt.ReOpt(smt.ReUnion(smt.ReLit("\""), smt.ReLit("'"))), smt.ReComp(plain))
+	m["url() that is not a plain http/https reference"] = smt.InRe(v, bad)
+	return m
+}
+
 func hostileTerm(v *smt.Term) *smt.Term {
 	var ds []*smt.Term
-	for _, f := range []string{"<", ">", "\\", "@", "expression(", "javascript:", "data:"} {
-		ds = append(ds, smt.Contains(v, smt.StrC(f)))
+	for _, t := range hostileClasses(v) {
+		ds = append(ds, t)
 	}
-	badURL := smt.Translate(`url\(([^"'h]|["'][^h]|["']?h[^t]|["']?ht[^t]|["']?htt[^p]|["']?http[^s:]|["']?https[^:]|["']?$|["']?h$|["']?ht$|["']?htt$|["']?http$|["']?https$)`)
-	ds = append(ds, badURL.Match(v))
 	return smt.Or(ds...)
 }
 
+var reJSData = regexp.MustCompile(`(^|[^a-z0-9./_:\\])(javascript|data):`)
+
 func hostileNative(v string) string {
-	for _, f := range []string{"<", ">", "\\", "@", "expression(", "javascript:", "data:"} {
+	for _, f := range []string{"<", ">", "\\", "@", "expression("} {
 		if strings.Contains(v, f) {
 			return "contains " + f
 		}
+	}
+	if reJSData.MatchString(v) {
+		return "contains a javascript:/data: reference"
 	}
 	rest := v
 	for {
@@ -41,7 +62,9 @@ func hostileNative(v string) string {
 			return ""
 		}
 		r := rest[i+4:]
-		r = strings.TrimLeft(r, `"'`)
+		if len(r) > 0 && (r[0] == '"' || r[0] == '\'') {
+			r = r[1:]
+		}
 		if !strings.HasPrefix(r, "http:") && !strings.HasPrefix(r, "https:") {
 			return "contains a url() that is not a plain http/https reference"
 		}
@@ -94,6 +117,9 @@ func runC18(c *Ctx, ev *Evidence) ([]Violation, error) {
 	if c.Tier == "thorough" {
 		timeout, grace, K = 120*time.Second, 5*time.Second, 3
 	}
+	if v, err := strconv.Atoi(os.Getenv("BMSYM_K")); err == nil {
+		K = v
+	}
 	base, err := c.NewInterp(sym.Config{})
 	if err != nil {
 		return nil, err
@@ -118,18 +144,38 @@ func runC18(c *Ctx, ev *Evidence) ([]Violation, error) {
 		"regexp.ReplaceAll(v, \"\") with the four unanchored function-name patterns neither deletes nor creates a hostile fragment",
 		"A4: regexp/syntax semantics as translated; values are lower-cased and escape-decoded by the caller (C10)")
 	ev.Outside("membership in the property's value space beyond inertness (no per-property grammar oracle)")
+	rcOK, err := c.proveRecursiveCheckSummary(ev, timeout)
+	if err != nil {
+		c.Log("recursiveCheck summary not applicable: %v", err)
+	}
+	if !rcOK {
+		c.Log("recursiveCheck summary not established; composite handlers are executed through the real recursion")
+	}
+	enumOK, err := c.proveEnumSummary(ev, timeout)
+	if err != nil {
+		c.Log("enum summary not applicable: %v", err)
+	}
+	if !enumOK {
+		c.Log("enum summary not established; enum handlers are executed through the real split")
+	}
 	var mu sync.Mutex
 	var viols []Violation
 	seen := map[string]bool{}
 	var wg sync.WaitGroup
 	sem := make(chan struct{}, 4)
 	totalPaths, totalAccept := 0, 0
+	only := os.Getenv("BMSYM_ONLY")
 	for _, h := range handlers {
+		if only != "" && !strings.Contains(","+only+",", ","+h.Name+",") {
+			continue
+		}
 		wg.Add(1)
 		go func(h *handlerInfo) {
 			defer wg.Done()
 			sem <- struct{}{}
 			defer func() { <-sem }()
+			t0 := time.Now()
+			defer func() { c.Log("C18 %s done in %.1fs", h.Name, time.Since(t0).Seconds()) }()
 			intercept := map[string]sym.Model{}
 			for name := range isHandler {
 				if name == h.Fn.String() {
@@ -141,19 +187,45 @@ func runC18(c *Ctx, ev *Evidence) ([]Violation, error) {
 					return []sym.Alt{{Ret: smt.UF("J."+short, smt.Bool, args[0].(*smt.Term))}}
 				}
 			}
-			in, err := c.NewInterp(sym.Config{NoFeasCheck: true, SplitMax: K, Intercept: intercept, Workers: 4, MaxStates: 60000, UnwindSym: 12})
-			if err != nil {
-				ev.Inconclusive(h.Name + ": " + err.Error())
-				return
+			var in *sym.Interp
+			var states []*sym.State
+			v := smt.Var("v", smt.String)
+			for attempt := 0; attempt < 2; attempt++ {
+				hcfg := sym.Config{NoFeasCheck: true, SplitMax: K, Intercept: intercept, Workers: 4, MaxStates: 60000, UnwindSym: 12}
+				hcfg.Summaries = map[string]func(in *sym.Interp, st *sym.State, args []sym.Value) sym.Value{}
+				if rcOK {
+					hcfg.Summaries[cssPkg+".recursiveCheck"] = recursiveCheckSummary
+				}
+				if enumOK && attempt == 0 {
+					hcfg.Summaries[cssPkg+".splitValues"] = splitValuesSummary
+					hcfg.Summaries[cssPkg+".in"] = inSummary
+				}
+				var err error
+				in, err = c.NewInterp(hcfg)
+				if err != nil {
+					ev.Inconclusive(h.Name + ": " + err.Error())
+					return
+				}
+				states, err = in.RunFrom(in.NewState(), h.Fn, []sym.Value{v})
+				if err != nil {
+					in.Close()
+					ev.Inconclusive(h.Name + ": exploration: " + err.Error())
+					return
+				}
+				retry := false
+				for _, st := range states {
+					if st.Status == sym.Unsupported && attempt == 0 {
+						retry = true // the summarised split result flowed somewhere else: use the real code
+					}
+				}
+				if !retry {
+					break
+				}
+				in.Close()
 			}
 			defer in.Close()
-			v := smt.Var("v", smt.String)
-			states, err := in.RunFrom(in.NewState(), h.Fn, []sym.Value{v})
-			if err != nil {
-				ev.Inconclusive(h.Name + ": exploration: " + err.Error())
-				return
-			}
 			ev.Func(cssPkg + "." + h.Name)
+			c.Log("C18 %s: %d paths explored in %.1fs", h.Name, len(states), time.Since(t0).Seconds())
 			nAcc := 0
 			for _, st := range states {
 				switch st.Status {
@@ -189,19 +261,75 @@ func runC18(c *Ctx, ev *Evidence) ([]Violation, error) {
 						lemmas = append(lemmas, smt.Implies(x, smt.Not(hostileTerm(x.Args[0]))))
 					}
 				})
-				as := append(acc, hostileTerm(v))
-				as = append(as, lemmas...)
-				as = sym.ProjectDecomps(as)
-				full := smt.And(as...)
-				if full.IsFalse() {
-					continue
-				}
 				var r smt.Result
 				name := fmt.Sprintf("C18-%s-p%d", h.Name, st.ID)
-				q := &smt.Query{Name: name, Asserts: append([]*smt.Term{full}, sym.SideConditions([]*smt.Term{full})...), Values: []*smt.Term{v}, Timeout: timeout, Both: true, Grace: grace}
-				in.WithWorker(func(w *smt.Worker) { r = w.Check(q) })
-				ev.Query(name, r)
-				ev.AddTransitions(1)
+				{
+					classes := hostileClasses(v)
+					var cn []string
+					for k := range classes {
+						cn = append(cn, k)
+					}
+					sort.Strings(cn)
+					results := make([]smt.Result, len(cn))
+					var cwg sync.WaitGroup
+					// equations x = p1·sep·p2… introduced by the split models: used to
+					// expand the hostile predicate (and the lemma instances) over the parts
+					eqs := map[*smt.Term]*smt.Term{}
+					if flat := smt.And(acc...); flat.Op == "and" {
+						for _, cj := range flat.Args {
+							if cj.Op == "=" {
+								for i := 0; i < 2; i++ {
+									if cj.Args[i].Op == "var" && cj.Args[1-i].Op == "str.++" {
+										eqs[cj.Args[i]] = cj.Args[1-i]
+									}
+								}
+							}
+						}
+					}
+					expand := func(t *smt.Term) *smt.Term {
+						for d := 0; d < 4 && len(eqs) > 0; d++ {
+							n := smt.Subst(t, eqs)
+							if n == t {
+								break
+							}
+							t = n
+						}
+						return t
+					}
+					var xl []*smt.Term
+					for _, l := range lemmas {
+						xl = append(xl, expand(l))
+					}
+					for ci, k := range cn {
+						as := append(append([]*smt.Term{}, acc...), expand(classes[k]))
+						as = append(as, xl...)
+						as = sym.ProjectDecomps(as)
+						full := smt.And(as...)
+						if full.IsFalse() {
+							results[ci] = smt.Result{Status: smt.Unsat, Solver: "syntactic"}
+							continue
+						}
+						cwg.Add(1)
+						go func(ci int, k string, full *smt.Term) {
+							defer cwg.Done()
+							q := &smt.Query{Name: name + "-" + k, Asserts: append([]*smt.Term{full}, sym.SideConditions([]*smt.Term{full})...), Values: []*smt.Term{v}, Timeout: timeout, Both: true, Grace: grace}
+							in.WithWorker(func(w *smt.Worker) { results[ci] = w.Check(q) })
+							ev.Query(name+"-"+k, results[ci])
+							ev.AddTransitions(1)
+						}(ci, k, full)
+					}
+					cwg.Wait()
+					r = smt.Result{Status: smt.Unsat}
+					for _, x := range results {
+						if x.Status == smt.Sat {
+							r = x
+							break
+						}
+						if x.Status == smt.Unknown {
+							r = x
+						}
+					}
+				}
 				switch r.Status {
 				case smt.Unknown:
 					ev.Inconclusive(fmt.Sprintf("%s: accepting path %d undecided (%s)", h.Name, st.ID, r.Note))
@@ -305,4 +433,227 @@ func runC18(c *Ctx, ev *Evidence) ([]Violation, error) {
 		in.Close()
 	}
 	return viols, nil
+}
+
+// recursiveCheckSummary is the functional meaning of css.recursiveCheck: some
+// segmentation of value into consecutive groups such that each group, joined
+// with single spaces, is accepted by one of funcs. Built as a term by dynamic
+// programming over the (concrete) number of parts; the predicates are the
+// opaque sub-handler symbols.
+func recursiveCheckSummary(in *sym.Interp, st *sym.State, args []sym.Value) sym.Value {
+	parts := sym.SliceElems(st, args[0])
+	funcs := sym.SliceElems(st, args[1])
+	n := len(parts)
+	rc := make([]*smt.Term, n+1)
+	rc[n] = smt.False // empty remainder is never checked (the caller tests len == 0 itself)
+	for i := n - 1; i >= 0; i-- {
+		var alts []*smt.Term
+		for j := i; j < n; j++ {
+			var cat []*smt.Term
+			for k := i; k <= j; k++ {
+				if k > i {
+					cat = append(cat, smt.StrC(" "))
+				}
+				cat = append(cat, parts[k].(*smt.Term))
+			}
+			tmp := smt.Concat(cat...)
+			var fs []*smt.Term
+			for _, f := range funcs {
+				fv := f.(*sym.FuncV)
+				fs = append(fs, opaqueHandler(fv, tmp))
+			}
+			tail := smt.True
+			if j < n-1 {
+				tail = rc[j+1]
+			}
+			alts = append(alts, smt.And(smt.Or(fs...), tail))
+		}
+		rc[i] = smt.Or(alts...)
+	}
+	if n == 0 {
+		return smt.False
+	}
+	return rc[0]
+}
+
+func opaqueHandler(fv *sym.FuncV, arg *smt.Term) *smt.Term {
+	if fv.Special == "pred" {
+		return smt.UF("pred."+fv.Tag, smt.Bool, arg)
+	}
+	return smt.UF("J."+fv.Fn.Name(), smt.Bool, arg)
+}
+
+// proveRecursiveCheckSummary validates the summary on the real body for up
+// to 3 parts and 2 opaque predicates.
+func (c *Ctx) proveRecursiveCheckSummary(ev *Evidence, timeout time.Duration) (bool, error) {
+	in, err := c.NewInterp(sym.Config{NoFeasCheck: true, MaxStates: 50000})
+	if err != nil {
+		return false, err
+	}
+	defer in.Close()
+	fn := in.FindFunc(cssPkg + ".recursiveCheck")
+	if fn == nil {
+		return false, nil
+	}
+	for n := 1; n <= 3; n++ {
+		for f := 1; f <= 2; f++ {
+			st := in.NewState()
+			var parts, funcs []sym.Value
+			for i := 0; i < n; i++ {
+				parts = append(parts, smt.Var(fmt.Sprintf("rc.p%d", i), smt.String))
+			}
+			for i := 0; i < f; i++ {
+				funcs = append(funcs, &sym.FuncV{Special: "pred", Tag: fmt.Sprintf("rc.f%d", i)})
+			}
+			pv := in.NewSliceValue(st, parts)
+			fv := in.NewSliceValue(st, funcs)
+			spec := recursiveCheckSummary(in, st, []sym.Value{pv, fv}).(*smt.Term)
+			states, err := in.RunFrom(st, fn, []sym.Value{pv, fv})
+			if err != nil {
+				return false, err
+			}
+			for _, s := range states {
+				if s.Status != sym.Finished {
+					return false, fmt.Errorf("recursiveCheck path ended with %s %s", StatusName(s.Status), s.Reason)
+				}
+				ret, ok := s.Ret.(*smt.Term)
+				if !ok {
+					return false, fmt.Errorf("recursiveCheck returns a non-scalar")
+				}
+				full := smt.And(append(append([]*smt.Term{}, s.PC...), smt.Not(smt.Eq(ret, spec)))...)
+				if full.IsFalse() {
+					continue
+				}
+				var r smt.Result
+				in.WithWorker(func(w *smt.Worker) {
+					r = w.Check(&smt.Query{Name: "C18-lemma-recursiveCheck", Asserts: append([]*smt.Term{full}, sym.SideConditions([]*smt.Term{full})...), Timeout: timeout, Both: true, Grace: 300 * time.Millisecond})
+				})
+				ev.Query(fmt.Sprintf("C18-lemma-recursiveCheck-n%d-f%d-p%d", n, f, s.ID), r)
+				ev.AddTransitions(1)
+				if r.Status != smt.Unsat {
+					return false, nil
+				}
+			}
+			ev.AddStates(len(states))
+		}
+	}
+	ev.Func(cssPkg + ".recursiveCheck [proven equal to its segmentation meaning for <=3 parts and <=2 predicates, then summarised]")
+	return true, nil
+}
+
+// ---- summaries for the enum idiom in(splitValues(v), consts) -----------------
+
+func enumLanguage(consts []string) *smt.Term {
+	var alts []*smt.Term
+	for _, c := range consts {
+		if strings.ToLower(c) != c || strings.TrimSpace(c) != c || strings.Contains(c, ",") {
+			continue // can never equal a trimmed, lower-cased, comma-free part
+		}
+		alts = append(alts, smt.ReCI(c))
+	}
+	ws := smt.ReStar(smt.ReUnion(smt.ReRange(9, 13), smt.ReLit(" ")))
+	item := smt.ReConcat(ws, smt.ReUnion(alts...), ws)
+	return smt.ReConcat(item, smt.ReStar(smt.ReConcat(smt.ReLit(","), item)))
+}
+
+func splitValuesSummary(in *sym.Interp, st *sym.State, args []sym.Value) sym.Value {
+	return &sym.SplitValuesV{X: args[0].(*smt.Term)}
+}
+
+func inSummary(in *sym.Interp, st *sym.State, args []sym.Value) sym.Value {
+	var consts []string
+	var constTerms []*smt.Term
+	for _, e := range sym.SliceElems(st, args[1]) {
+		t := e.(*smt.Term)
+		constTerms = append(constTerms, t)
+		if t.IsConst() {
+			consts = append(consts, t.S)
+		}
+	}
+	switch v := args[0].(type) {
+	case *sym.SplitValuesV:
+		if len(consts) != len(constTerms) {
+			panic("in(splitValues(..), non-constant list)")
+		}
+		return smt.InRe(v.X, enumLanguage(consts))
+	default:
+		// concrete-length list: every element equals some list entry
+		var cs []*smt.Term
+		for _, e := range sym.SliceElems(st, args[0]) {
+			var ds []*smt.Term
+			for _, c := range constTerms {
+				ds = append(ds, smt.Eq(e.(*smt.Term), c))
+			}
+			cs = append(cs, smt.Or(ds...))
+		}
+		return smt.And(cs...)
+	}
+}
+
+// proveEnumSummary validates both summaries against the real bodies of
+// css.splitValues and css.in for values of up to 3 comma parts.
+func (c *Ctx) proveEnumSummary(ev *Evidence, timeout time.Duration) (bool, error) {
+	in, err := c.NewInterp(sym.Config{NoFeasCheck: true, SplitMax: 3, MaxStates: 50000})
+	if err != nil {
+		return false, err
+	}
+	defer in.Close()
+	fin, fsv := in.FindFunc(cssPkg+".in"), in.FindFunc(cssPkg+".splitValues")
+	if fin == nil || fsv == nil {
+		return false, nil
+	}
+	for _, list := range [][]string{{"x"}, {"ab", "c", "d-e"}} {
+		v := smt.Var("enum.v", smt.String)
+		st := in.NewState()
+		// run splitValues, then in on its result
+		s1, err := in.RunFrom(st, fsv, []sym.Value{v})
+		if err != nil {
+			return false, err
+		}
+		for _, a := range s1 {
+			if a.Status == sym.Cut {
+				continue
+			}
+			if a.Status != sym.Finished {
+				return false, fmt.Errorf("splitValues path ended with %s %s", StatusName(a.Status), a.Reason)
+			}
+			var lt []sym.Value
+			for _, x := range list {
+				lt = append(lt, smt.StrC(x))
+			}
+			a.Status = sym.Running
+			a.Frames = nil
+			lv := in.NewSliceValue(a, lt)
+			s2, err := in.RunFrom(a, fin, []sym.Value{a.Ret, lv})
+			if err != nil {
+				return false, err
+			}
+			for _, b := range s2 {
+				if b.Status != sym.Finished {
+					return false, fmt.Errorf("in path ended with %s %s", StatusName(b.Status), b.Reason)
+				}
+				ret := b.Ret.(*smt.Term)
+				spec := smt.InRe(v, enumLanguage(list))
+				as := sym.ProjectDecomps(append(append([]*smt.Term{}, b.PC...), smt.Not(smt.Eq(ret, spec))))
+				full := smt.And(as...)
+				if full.IsFalse() {
+					continue
+				}
+				var r smt.Result
+				in.WithWorker(func(w *smt.Worker) {
+					r = w.Check(&smt.Query{Name: "C18-lemma-enum", Asserts: append([]*smt.Term{full}, sym.SideConditions([]*smt.Term{full})...), Values: []*smt.Term{v}, Timeout: timeout, Both: true, Grace: 300 * time.Millisecond})
+				})
+				ev.Query(fmt.Sprintf("C18-lemma-enum-%d-p%d", len(list), b.ID), r)
+				ev.AddTransitions(1)
+				if r.Status != smt.Unsat {
+					if r.Status == smt.Sat {
+						c.Log("enum summary refuted on %q", r.Values[0].S)
+					}
+					return false, nil
+				}
+			}
+		}
+	}
+	ev.Func(cssPkg + ".splitValues and css.in [the idiom in(splitValues(v), consts) proven equal to a regular language for <=3 parts, then summarised for any number of parts]")
+	return true, nil
 }
